@@ -73,6 +73,13 @@ impl BigInt {
         self.inner.to_i64()
     }
 
+    /// Writes the integer as a numeral of the given base (2 to 36),
+    /// with lowercase letters for the digits above 9, the same way
+    /// the digits of non-integers are written.
+    pub fn to_string_radix(&self, base: u8) -> String {
+        self.inner.to_str_radix(base as u32)
+    }
+
     pub fn abs(&self) -> BigInt {
         BigInt {
             inner: self.inner.abs(),
